@@ -138,7 +138,8 @@ def strategy():
             data += b"\n"
         if bom:
             feats.add("BOM")
-        return {"data": data, "feats": sorted(feats)}
+        alt = draw(st.sampled_from([False, False, True]))
+        return {"data": data, "feats": sorted(feats) + (["build:alternative-compile-time-defaults"] if alt else []), "altbuild": alt}
     return case()
 
 
@@ -160,8 +161,17 @@ def parse_conf_output(out):
     return vals
 
 
+ALT = "ts-asan-altdefaults"
+ALT_CONFIGURE = ["--with-message-format=ALT %{cmdline} u=%{uid} [%{tty}]", "--with-default-output=file:/nonexistent/alt-default.log",
+                 "--with-syslog-facility=LOCAL2", "--with-syslog-level=DEBUG", "--with-filter-chain=exclude_uid:77;noop", "--enable-error-logging"]
+DEFAULTS_OF = {}
+
+
 def evaluate(env, c, roundtrip=None):
-    d = env.driver("ts-asan")
+    # a build whose compile-time defaults are all different from the stock ones: whatever a file does not set (or sets to garbage)
+    # falls back to THOSE values
+    variant = ALT if c.get("altbuild") and ALT in env.builds else "ts-asan"
+    d = env.driver(variant)
     data = c["data"]
     if any(len(l) > 1022 for l in data.split(b"\n")):
         return
@@ -178,7 +188,8 @@ def evaluate(env, c, roundtrip=None):
     got = api_values(res)
     if got is None:
         raise Failure("option-value API returned nothing", {"result": res.describe()}, key="api")
-    want = model.config_model(data, DEFAULT_FORMAT)
+    dflt = DEFAULTS_OF.get(variant)
+    want = model.config_model(data, dflt["message_format"] if dflt else DEFAULT_FORMAT, defaults=dflt)
     bad = {}
     for k in OPTS:
         if got.get(k) not in want[k]:
@@ -220,11 +231,11 @@ def classify(c):
         special = special | {"duplicate"}
     nontriv = bool(opts) and bool(special)
     key = (tuple(sorted(special)), tuple(opts)) if nontriv else None
-    return key, sorted(special) + (["has-option"] if opts else ["no-option"])
+    return key, sorted(special) + (["has-option"] if opts else ["no-option"]) + (["build:alternative-compile-time-defaults"] if c.get("altbuild") else [])
 
 
 def sample(c):
-    return {"data": c["data"], "feats": c["feats"]}
+    return {"data": c["data"], "feats": c["feats"], "altbuild": c.get("altbuild", False)}
 
 
 FIXED = [
@@ -239,15 +250,17 @@ FIXED = [
 def main():
     global DEFAULT_FORMAT
     ctx = Ctx(PID, "exploration", RULE)
-    b = ctx.run.build("ts-asan")
+    b, balt = ctx.run.build_many(["ts-asan", {"variant": "ts-asan", "name": ALT, "extra_configure": ALT_CONFIGURE}])
     cfgh = open(os.path.join(b["src"], "config.h")).read()
     DEFAULT_FORMAT = re.search(r'#define SNOOPY_CONF_MESSAGE_FORMAT "(.*)"', cfgh).group(1).encode()
+    DEFAULTS_OF[ALT] = model.defaults_from_config_h(open(os.path.join(balt["src"], "config.h")).read())
+    ctx.extra["alternative_build_defaults"] = {k: v.decode("latin-1") for k, v in DEFAULTS_OF[ALT].items()}
     ctx.assumptions = ["physical lines longer than 1022 bytes and NUL bytes are outside the modelled grammar (C02 covers them)",
                        "where a duplicate's last value is garbage, the union {default} is required for syslog names; for lengths "
                        "garbage may yield the default or the value of its leading digits",
                        "round trip through the real `snoopyctl conf` is run for about a quarter of the cases"]
     nw, per = (4, 1000) if ctx.quick else (16, 7500)
-    pbt.run(ctx, {"ts-asan": b}, strategy, evaluate, classify, nw, per, sample=sample, fixed_cases=FIXED)
+    pbt.run(ctx, {"ts-asan": b, ALT: balt}, strategy, evaluate, classify, nw, per, sample=sample, fixed_cases=FIXED)
     ctx.finish()
 
 
